@@ -4,7 +4,7 @@ from __future__ import annotations
 import ast
 
 from ..cfg import CFG
-from ..engine import AnalysisError, PropertySpec, norm
+from ..engine import AnalysisError, MechanismMissing, PropertySpec, norm
 from ..pyutil import call_name, calls, dotted, is_name, literal, walk_local
 from ._listener import listener_symmetry
 
@@ -70,7 +70,7 @@ def r07_1(ctx, rep):
     site = TREE + ":flatten_extends"
     tgt = _alloc_var(fn, "InstanceClass")
     if tgt is None:
-        raise AnalysisError(R, "InstanceClass allocation not found in flatten_extends")
+        raise MechanismMissing(R, "InstanceClass allocation not found in flatten_extends")
     m = _merges(fn, tgt)
     own = fn.args.args[0].arg
     base = None
@@ -81,7 +81,7 @@ def r07_1(ctx, rep):
                         and isinstance(st.targets[0], ast.Name):
                     base = st.targets[0].id
     if base is None:
-        raise AnalysisError(R, "recursive flatten_extends call over %s.extends not found" % own)
+        raise MechanismMissing(R, "recursive flatten_extends call over %s.extends not found" % own)
     for f in T_FIELDS:
         rep.ob(R, site, "base.%s" % f, m.get((base, f)) == f,
                "every base class's `%s` must be merged into the instance class's `%s` (found target %r)" % (f, f, m.get((base, f))))
@@ -103,13 +103,13 @@ def r07_1(ctx, rep):
     site = TREE + ":flatten_symbols"
     flat = _alloc_var(fn, "Class")
     if flat is None:
-        raise AnalysisError(R, "flat Class allocation not found in flatten_symbols")
+        raise MechanismMissing(R, "flat Class allocation not found in flatten_symbols")
     sub = None
     for n in walk_local(fn):
         if isinstance(n, ast.Assign) and isinstance(n.value, ast.Call) and is_name(n.value.func, "flatten_symbols") and isinstance(n.targets[0], ast.Name):
             sub = n.targets[0].id
     if sub is None:
-        raise AnalysisError(R, "recursive flatten_symbols call not found")
+        raise MechanismMissing(R, "recursive flatten_symbols call not found")
     m = _merges(fn, flat)
     for f in T_FIELDS:
         rep.ob(R, site, "sub.%s" % f, m.get((sub, f)) == f,
@@ -175,26 +175,17 @@ def r07_1(ctx, rep):
                "and land in %s.%s (found: %r)" % (cls_param, f, cls_param, flat, prefix_var, flat, f, sinks.get(f)))
 
 
-@SPEC.rule(
-    "R07.2",
-    "I/O stripping only below top level: the statement removing prefixes is guarded by a non-empty instance prefix "
-    "and strips exactly 'input' and 'output'",
-)
-def r07_2(ctx, rep):
-    R = "R07.2"
-    fn = ctx.func(TREE, "flatten_symbols", R)
-    cfg = CFG(fn, R)
-    site = TREE + ":flatten_symbols"
-    n = 0
+def _strip_sites(cfg, fn):
+    """CFG nodes that remove keywords from <sym>.prefixes, with the keywords they remove:
+    `sym.prefixes.remove(kw)` (kw a literal or a loop variable over a literal list) or
+    `sym.prefixes = [p for p in sym.prefixes if p not in <literal>]`."""
+    out = []
     for node in cfg.stmts():
-        for c in calls(node.ast):
+        a = node.ast
+        if isinstance(a, (ast.FunctionDef, ast.ClassDef)):
+            continue
+        for c in calls(a):
             if isinstance(c.func, ast.Attribute) and c.func.attr == "remove" and isinstance(c.func.value, ast.Attribute) and c.func.value.attr == "prefixes":
-                n += 1
-                guards = cfg.dominated_by(node.id, lambda x: x.kind == "assume" and x.taken and norm(x.ast) in (
-                    "instance_prefix", "instance_name", 'instance_name != ""', "instance_name != ''", 'instance_prefix != ""', "instance_prefix != ''"))
-                rep.ob(R, site, "guard of " + norm(c), bool(guards),
-                       "prefix stripping must be dominated by the test that the instance prefix is non-empty (top-level inputs/outputs keep their prefix)")
-                # which keywords
                 arg = c.args[0] if c.args else None
                 kws = None
                 if isinstance(arg, ast.Name):
@@ -202,17 +193,76 @@ def r07_2(ctx, rep):
                         if isinstance(loop, ast.For) and is_name(loop.target, arg.id):
                             it = loop.iter
                             if isinstance(it, ast.Name):
-                                for a in walk_local(fn):
-                                    if isinstance(a, ast.Assign) and is_name(a.targets[0], it.id):
-                                        kws = literal(a.value)
+                                for x in walk_local(fn):
+                                    if isinstance(x, ast.Assign) and is_name(x.targets[0], it.id):
+                                        kws = literal(x.value)
                             else:
                                 kws = literal(it)
                 elif arg is not None:
                     kws = [literal(arg)]
-                rep.ob(R, site, "keywords stripped", kws is not None and sorted(kws) == ["input", "output"],
-                       "exactly 'input' and 'output' are stripped from nested symbols (parameter/constant/discrete/flow survive); found %s" % (kws,))
-    if n < 1:
-        raise AnalysisError(R, "no prefixes.remove(...) found in flatten_symbols")
+                out.append((node, norm(c.func.value.value), kws, norm(c)))
+        if isinstance(a, ast.Assign) and isinstance(a.targets[0], ast.Attribute) and a.targets[0].attr == "prefixes" and isinstance(a.value, ast.ListComp):
+            g = a.value.generators[0]
+            if norm(g.iter) == norm(a.targets[0]) and len(g.ifs) == 1 and isinstance(g.ifs[0], ast.Compare) and isinstance(g.ifs[0].ops[0], ast.NotIn):
+                out.append((node, norm(a.targets[0].value), literal(g.ifs[0].comparators[0]), norm(a)))
+    return out
+
+
+@SPEC.rule(
+    "R07.2",
+    "I/O stripping only below top level: every registration of a leaf symbol in the flat class is preceded, whenever "
+    "the instance prefix is non-empty, by the removal of exactly 'input' and 'output' from that symbol's prefixes; the "
+    "removal itself is guarded by the non-empty prefix",
+)
+def r07_2(ctx, rep):
+    R = "R07.2"
+    fn = ctx.func(TREE, "flatten_symbols", R)
+    cfg = CFG(fn, R)
+    site = TREE + ":flatten_symbols"
+    sites = _strip_sites(cfg, fn)
+    if not sites:
+        raise MechanismMissing(R, "no statement removing keywords from <symbol>.prefixes found in flatten_symbols")
+    PREFIX_TESTS = ("instance_prefix", "instance_name", 'instance_name != ""', "instance_name != ''", 'instance_prefix != ""', "instance_prefix != ''")
+    for node, owner, kws, text in sites:
+        guards = cfg.dominated_by(node.id, lambda x: x.kind == "assume" and x.taken and norm(x.ast) in PREFIX_TESTS)
+        rep.ob(R, site, "guard of " + text[:60], bool(guards),
+               "prefix stripping must be dominated by the test that the instance prefix is non-empty (top-level inputs/outputs keep their prefix)")
+    kws_all = sorted({k for _n, _o, kws, _t in sites for k in (kws or ["?"])})
+    rep.ob(R, site, "keywords stripped", kws_all == ["input", "output"],
+           "exactly 'input' and 'output' are stripped from nested symbols (parameter/constant/discrete/flow survive); found %s" % (kws_all,))
+    # every leaf registration is reached only through a strip site (when the prefix is non-empty)
+    regs = [x for x in cfg.stmts() if isinstance(x.ast, ast.Assign) and isinstance(x.ast.targets[0], ast.Subscript)
+            and norm(x.ast.targets[0].value).endswith(".symbols") and isinstance(x.ast.value, ast.Name)
+            and isinstance(x.ast.targets[0].slice, ast.Attribute) and x.ast.targets[0].slice.attr == "name"]
+    loops = [x for x in cfg.nodes if x.kind == "iter" and norm(x.ast.iter).endswith(".symbols.items()")]
+    if not regs or not loops:
+        raise MechanismMissing(R, "leaf registrations (flat_class.symbols[sym.name] = sym) or the symbol loop not found")
+    it = loops[0]
+    entry = [s_ for s_ in cfg.succ[it.id] if cfg.nodes[s_].kind == "assume" and cfg.nodes[s_].taken][0]
+    avoid = {n.id for n, _o, _k, _t in sites}
+    # a removal inside `for kw in <non-empty literal list>` always runs: passing the loop header counts
+    for n, _o, _k, _t in sites:
+        p_ = getattr(n.ast, "_parent", None)
+        while p_ is not None and p_ is not fn:
+            if isinstance(p_, ast.For):
+                lit = literal(p_.iter)
+                if lit is None and isinstance(p_.iter, ast.Name):
+                    for x in walk_local(fn):
+                        if isinstance(x, ast.Assign) and is_name(x.targets[0], p_.iter.id):
+                            lit = literal(x.value)
+                if isinstance(lit, (list, tuple)) and len(lit) > 0:
+                    avoid |= {x.id for x in cfg.nodes if x.kind == "iter" and x.ast is p_}
+                break
+            p_ = getattr(p_, "_parent", None)
+    # with an empty prefix nothing needs stripping: those branches are not obligations
+    avoid |= {x.id for x in cfg.nodes if x.kind == "assume" and not x.taken and norm(x.ast) in PREFIX_TESTS}
+    for k, r in enumerate(regs, 1):
+        if r.id not in cfg.reachable(entry):
+            continue
+        w = cfg.path(entry, r.id, avoid=avoid - {r.id})
+        rep.ob(R, site, "leaf registration #%d %s" % (k, norm(r.ast)[:50]), w is None,
+               "a nested leaf symbol is stored in the flat class on a path that never strips input/output from its prefixes: "
+               "the nested variable is reported as a model input/output", path=cfg.describe(w) if w else "")
 
 
 @SPEC.rule(
@@ -242,7 +292,7 @@ def r07_3(ctx, rep):
             loop = n
             break
     if loop is None:
-        raise AnalysisError(R, "loop over class_.symbols.items() not found")
+        raise MechanismMissing(R, "loop over class_.symbols.items() not found")
     kvar, svar = loop.target.elts[0].id, loop.target.elts[1].id
     body = [norm(s) for s in loop.body]
     rep.ob(R, site, "flat name", "%s.name = instance_prefix + %s" % (svar, kvar) in body,
@@ -276,7 +326,7 @@ def r07_4(ctx, rep):
     n = listener_symmetry(ctx, rep, "R07.4", TREE, "ComponentRefFlattener")
     n += listener_symmetry(ctx, rep, "R07.4", TREE, "ConstantReferenceApplier")
     if n < 5:
-        raise AnalysisError("R07.4", "expected >=5 enter/exit state pairs, found %d" % n)
+        raise MechanismMissing("R07.4", "expected >=5 enter/exit state pairs, found %d" % n)
 
 
 @SPEC.rule(
